@@ -1933,9 +1933,7 @@ class StreamingDecoder(object):
 
             for chunk in isEndOfStream(self._substrate):
                 if isinstance(chunk, SubstrateUnderrunError):
-                    yield
-
-                break
+                    yield chunk
 
             if chunk:
                 break
